@@ -6,7 +6,6 @@ package main
 // behaviours; every physical attempt's received body is recorded.
 
 import (
-	"net"
 	"bytes"
 	"context"
 	"errors"
@@ -14,6 +13,7 @@ import (
 	"io"
 	"math"
 	"math/rand"
+	"net"
 	"net/http"
 	"strings"
 	"time"
@@ -129,6 +129,14 @@ func runC17(seed int64, tier string, sc *Script) map[string]any {
 	for i := 0; i < n; i++ {
 		maxRetry := rng.Intn(5)
 		minW, maxW := int64(100+rng.Intn(200)), int64(300+rng.Intn(400))
+		switch rng.Intn(8) {
+		case 0: // immediate retries: both bounds zero
+			minW, maxW = 0, 0
+		case 1: // no lower bound
+			minW = 0
+		case 2: // the bounds coincide
+			maxW = minW
+		}
 		var bo []int64
 		for k := 0; k < 8; k++ {
 			bo = append(bo, []int64{-5, 0, 50, 250, 500, 1000, 1 << 40, math.MaxInt64 / 1000}[rng.Intn(8)])
